@@ -251,7 +251,7 @@ CLAIMED = {
              "content built through six recipes landing in different storage forms, same array operations, structural dumps compared after "
              "every step and with the array-like form.",
         technique="Lean 4 refinement proofs (5 storage variants -> finite map) + PropertyMap correspondence + cross-storage JS differential",
-        note="Array.prototype algorithms are compared across storage forms, not specified in Lean; key-order theorem not proved yet.",
+        note="Array.prototype algorithms are compared across storage forms, not specified in Lean; the key order reported over an arbitrarily ordered index storage is proved under C20 (ownKeys_eq_spec, ownKeys_storage_independent).",
     ),
     "C05": dict(
         level="proof",
